@@ -288,7 +288,7 @@ func runProg(c *Ctx, n int, ops []astOp, stream string) (string, []ast.Node, *re
 	for i, o := range ops {
 		names = append(names, o.String())
 		panicked := false
-		c.watchdog(5*time.Second, "ast-hang", func() interface{} {
+		c.watchdog(60*time.Second, "ast-hang", func() interface{} {
 			return map[string]interface{}{"nodes": n, "ops": strings.Join(names, " ")}
 		}, func() { panicked = applyReal(pool, o) })
 		if panicked {
@@ -410,7 +410,7 @@ func runWalk(c *Ctx, pn int, prog string, pool []ast.Node, rf *refForest, root i
 	calls := 0
 	errX := errors.New("x")
 	var err error
-	c.watchdog(5*time.Second, "walk-hang", func() interface{} {
+	c.watchdog(60*time.Second, "walk-hang", func() interface{} {
 		return map[string]interface{}{"nodes": pn, "ops": prog, "root": root, "script": strings.Join(script, ",")}
 	}, func() {
 		err = ast.Walk(pool[root], func(n ast.Node, entering bool) (ast.WalkStatus, error) {
